@@ -503,6 +503,105 @@ def relname(path, var, g):
     return '.'.join(P[g:] + [var['name']])
 
 
+# ------------------------------------------------------------------------------------ (anti-)parallel adjoint right-hand sides
+
+def gen_rhs_spec(rng):
+    """Specs in which responses depend on other responses through (anti-)parallel linear maps, upstream of a
+    sub-group 'g0' that owns a linear solver: in reverse mode the right-hand sides that reach g0 for the response
+    chain  yA -> yB = k*yA -> yC = k2*yB  are multiples of each other (k negative, 1, -1, other), a response fed
+    directly by the design variables gives a zero right-hand side in g0.  This drives the linear-solution cache
+    (rhs_checking / LinearRHSChecker): equal, negated, parallel, anti-parallel and zero hits."""
+    def var(name, size, **kw):
+        d = {'name': name, 'size': size, 'units': None, 'up': 0, 'alias': None}
+        d.update(kw)
+        return d
+
+    def inp(name, size, src, si=None):
+        return {'name': name, 'size': size, 'units': None, 'src': src, 'src_indices': si, 'via': 'connect',
+                'at': 'root', 'at_len': 0, 'up': 0, 'alias': None, 'val': None}
+
+    def comp(path, kind, ins, outs, **kw):
+        c = {'path': path, 'kind': kind, 'mf': False, 'sparse': rng.random() < 0.3, 'ins': ins, 'outs': outs}
+        c.update(kw)
+        return c
+    comps = []
+    nd = rng.randrange(1, 3)
+    dsz = [rng.randrange(1, 4) for _ in range(nd)]
+    comps.append(comp('d', 'ivc', [], [var('v%d' % k, dsz[k], val=[rng.randrange(-3, 4) for _ in range(dsz[k])])
+                                       for k in range(nd)]))
+    # sub-group g0: a chain of 1..3 components fed by the design variables
+    prev = [(0, k, dsz[k]) for k in range(nd)]
+    ng = rng.randrange(1, 4)
+    last = None
+    for j in range(ng):
+        ci = len(comps)
+        srcs = prev if j == 0 else [last] + ([rng.choice(prev)] if rng.random() < 0.4 else [])
+        ins = [inp('x%d' % k, sz, [sc, so]) for k, (sc, so, sz) in enumerate(srcs)]
+        osz = 1 if (j == ng - 1 and rng.random() < 0.5) else rng.randrange(1, 4)
+        if rng.random() < 0.3:
+            A, inv = _rnd_invertible(rng, osz)
+            o = var('y0', osz, Ay=[js(A)], Bx=[js(_rnd_mat(rng, osz, i['size'])) for i in ins],
+                    c=[rng.randrange(-2, 3) for _ in range(osz)])
+            comps.append(comp('g0.s%d' % j, 'imp', ins, [o], Ainv=js(inv), mf=rng.random() < 0.3))
+        else:
+            o = var('y0', osz, A=[js(_rnd_mat(rng, osz, i['size'])) for i in ins],
+                    b=[rng.randrange(-2, 3) for _ in range(osz)])
+            comps.append(comp('g0.s%d' % j, 'exp', ins, [o], mf=rng.random() < 0.3))
+        last = (ci, 0, osz)
+    # yA outside the group
+    n = rng.randrange(1, 4)
+    cA = len(comps)
+    comps.append(comp('cA', 'exp', [inp('x0', last[2], [last[0], 0])],
+                      [var('y0', n, A=[js(_rnd_mat(rng, n, last[2]))], b=[rng.randrange(-2, 3) for _ in range(n)])]))
+    responses = [(cA, n)]
+    chain_prev = (cA, n)
+    for j in range(rng.randrange(1, 3)):
+        k = rng.choice([F(-3), F(-1), F(1), F(2), F(-1, 2), F(-2), F(4), F(-3), F(3, 2)])
+        if rng.random() < 0.15:
+            K = _rnd_mat(rng, n, n)                 # not a multiple of the identity: nothing to reuse
+        else:
+            K = [[k if a == b else F(0) for b in range(n)] for a in range(n)]
+        ci = len(comps)
+        comps.append(comp('cB%d' % j, 'exp', [inp('x0', n, [chain_prev[0], 0])],
+                          [var('y0', n, A=[js(K)], b=[rng.randrange(-2, 3) for _ in range(n)])]))
+        responses.append((ci, n))
+        chain_prev = (ci, n)
+    if rng.random() < 0.5:   # a response that does not pass through g0: zero right-hand side there
+        ci = len(comps)
+        m = rng.randrange(1, 3)
+        comps.append(comp('cZ', 'exp', [inp('x0', dsz[0], [0, 0])],
+                          [var('y0', m, A=[js(_rnd_mat(rng, m, dsz[0]))], b=[0] * m)]))
+        responses.append((ci, m))
+    rng.shuffle(responses)
+    spec = {'comps': comps, 'coupled': False}
+    spec['desvars'] = []
+    for k in range(nd):
+        d = {'comp': 0, 'out': k, 'indices': None, 'units': None}
+        _rnd_scaling(rng, d, dsz[k])
+        spec['desvars'].append(d)
+    spec['responses'] = []
+    have_obj = False
+    for ci, m in responses:
+        r = {'comp': ci, 'out': 0, 'alias': None, 'units': None, 'indices': None, 'type': 'con'}
+        if m == 1 and not have_obj and rng.random() < 0.4:
+            r['type'] = 'obj'
+            have_obj = True
+        elif m > 1 and rng.random() < 0.3:
+            r['indices'] = _rnd_indices(rng, m, rng.randrange(1, m + 1), True)
+        _rnd_scaling(rng, r, len(r['indices']) if r['indices'] is not None else m)
+        spec['responses'].append(r)
+    return spec
+
+
+def gen_valid_rhs_spec(rng):
+    for _ in range(200):
+        spec = gen_rhs_spec(rng)
+        ex = exact_all(flatten(spec))
+        if ex is not None and magnitude_ok(ex, 14, need_dyadic=True):
+            return spec
+    raise RuntimeError('generator could not produce a valid rhs spec')
+
+
 # ------------------------------------------------------------------------------------ solver scaling (C08)
 
 def with_scaling(spec, rng, pow2=True, route='add', only=None):
